@@ -5,7 +5,7 @@ LenLaw, PrefixIsTail, DcAndGuardsEmpty (+ Parseval), CircularUnderCP, WindowAlig
 FreqIsHTimesX, RoundTrip, OneTapExact hold on every state of every enumerated case; for every Dev flag TLC
 must FIND a violation (non-vacuity).
 Stage R: the same TLC runs emit every step of every case (exact values in Z[zeta_M], module Cyc2, plus the
-index layer).  Each chain  Choose-Pad-Map-Ifft-AddCP-(Loop | Channel-Crop)-RemoveCP-Fft-Unmap-(Equalize)  is
+index layer; emitted by the state predicate `Emit`, listed as an INVARIANT, once per distinct state).  Each chain  Choose-Pad-Map-Ifft-AddCP-(Loop | Channel-Crop)-RemoveCP-Fft-Unmap-(Equalize)  is
 executed on the real OFDM / TdlChannel (driven by a table generator) / OfdmOneTapEqualizer and every public
 observable is compared with what TLC emitted.  Python only evaluates  sum_j c_j exp(2 pi i j / M) * scale.
 For fft sizes that are not a power of two the spec supplies the index layer and the final expectations
@@ -51,7 +51,7 @@ def model(configs=(), mapffts=(), paramffts=(), lenmode="two", patmode="dense", 
             "Dev": tlc.tla(d)}
     cfg = tlc.cfg_text(constants={"LenMode": tlc.tla(lenmode), "PatMode": tlc.tla(patmode), "NDense": str(ndense),
                                   "LayMode": tlc.tla(laymode), "Block": tlc.tla(bool(block)), "Seed": str(seed % 1000)},
-                       defs=defs, invariants=INVS, action_constraints=["Emit"] if emit else [])
+                       defs=defs, invariants=INVS + (["Emit"] if emit else []))
     return cfg, defs
 
 
@@ -441,8 +441,8 @@ def plan(tier, seed):
            + configs_of([60], cps=lambda N: [0, 7, 60], us=lambda N: [2, 52, 60]))
     jobs.append({"label": "stars", "w": 1e12, "model": dict(mapffts=list(range(2, 65)), paramffts=[2, 3, 4, 6, 8], seed=seed)})
     if tier == "quick":
-        # every length and the complete unit basis of the data, loopback and the full-memory two-tap layout
-        add("data-sweep", pow2, 6, 2.0, lenmode="all", patmode="basis", ndense=1, laymode="one", block=False)
+        # every length and the complete unit basis of the data; loopback and three layouts (one of full memory)
+        add("data-sweep", pow2, 8, 2.0, lenmode="all", patmode="basis", ndense=1, laymode="three", block=False)
         # the complete unit basis of the taps (+ the three layouts), static and block-static, two lengths
         add("tap-sweep", pow2, 4, 1.0, cost_basis, lenmode="two", patmode="dense", ndense=1, laymode="basis", block=True)
         add("non-pow2", np2, 1, 1e6, lenmode="two", patmode="dense", ndense=1, laymode="three", block=True)
@@ -450,7 +450,7 @@ def plan(tier, seed):
         p16 = configs_of([16])
         # fft 16: every length, complete data basis; every tap layout of <= 3 taps; complete tap basis, block-static
         add("data-sweep16", p16, 12, 6.0, lenmode="all", patmode="basis", ndense=1, laymode="one", block=False)
-        add("layouts16", p16, 16, 1.0, cost_all3, lenmode="one", patmode="dense", ndense=1, laymode="all3", block=False)
+        add("layouts16", p16, 16, 1.0, cost_all3, lenmode="isi", patmode="dense", ndense=1, laymode="all3", block=False)
         add("tap-sweep16", p16, 6, 2.0, cost_basis, lenmode="two", patmode="dense", ndense=1, laymode="basis", block=True)
         # fft <= 8: the complete product (data basis x all lengths) x (tap basis) x {static, block-static}; all layouts
         add("product8", pow2, 14, 3.0, cost_basis, lenmode="all", patmode="basis", ndense=1, laymode="basis", block=True)
